@@ -389,6 +389,15 @@ class Interp(object):
         if isinstance(e, ast.Call) and isinstance(e.func, ast.Name) and e.func.id == 'len' and len(e.args) == 1:
             s = self.seq(e.args[0], env)
             return s.length
+        if isinstance(e, ast.Call) and isinstance(e.func, ast.Name) and e.func.id in ('max', 'min') and len(e.args) == 2 and not e.keywords:
+            # clipping of an index: decided by the facts, else the analysis is repeated under both orders
+            x, y = self.aff(e.args[0], env), self.aff(e.args[1], env)
+            fx = self.facts + list(env.get('#facts', ()))
+            if entails(fx, x - y):
+                return x if e.func.id == 'max' else y
+            if entails(fx, y - x):
+                return y if e.func.id == 'max' else x
+            raise NeedSplit(x - y)
         raise Unknown('index expression %s' % ast.unparse(e)[:40])
 
     # ------------------------------------------------------------------ sequences
@@ -482,7 +491,10 @@ class Interp(object):
             raise Unknown('name %s is not a value' % e.id)
         if isinstance(e, ast.Call) and isinstance(e.func, ast.Name) and e.func.id in ('min', 'max'):
             if len(e.args) == 1:
-                return self.reduce_slice(e.func.id, e.args[0], env, e.lineno)
+                dflt = [k.value for k in e.keywords if k.arg == 'default']
+                if e.keywords and not dflt:
+                    raise Unknown('keyword of %s' % ast.unparse(e)[:40])
+                return self.reduce_slice(e.func.id, e.args[0], env, e.lineno, default=(self.term(dflt[0], env) if dflt else None))
             return mk(e.func.id, [self.term(a, env) for a in e.args])
         if isinstance(e, ast.Subscript) and not isinstance(e.slice, ast.Slice):
             s = self.seq(e.value, env)
@@ -492,8 +504,9 @@ class Interp(object):
             return s.elem(i)
         raise Unknown('value expression %s' % ast.unparse(e)[:40])
 
-    def reduce_slice(self, op, e, env, lineno):
-        """min(S[lo:hi]) -> Red(op, i in [lo, hi-1], S(i)); obligations: 0 <= lo, slice not empty"""
+    def reduce_slice(self, op, e, env, lineno, default=None):
+        """min(S[lo:hi]) -> Red(op, i in [lo, hi-1], S(i)); obligations: 0 <= lo, 0 <= hi (a negative bound counts from the end of the list),
+        slice not empty -- or, with default=, the default value on the cases in which the slice is empty"""
         if not (isinstance(e, ast.Subscript) and isinstance(e.slice, ast.Slice) and e.slice.step is None):
             raise Unknown('%s() of %s' % (op, ast.unparse(e)[:40]))
         s = self.seq(e.value, env)
@@ -501,8 +514,19 @@ class Interp(object):
         hi = self.aff(e.slice.upper, env) if e.slice.upper is not None else s.length
         fx = env.get('#facts', ())
         self.require(lo, 'slice start of `%s` is not negative' % ast.unparse(e)[:50], lineno, fx)
-        self.require(hi - lo - Aff.const(1), '`%s(%s)` is never applied to an empty slice (upper > lower)' % (op, ast.unparse(e)[:50]), lineno, fx)
-        self.require(s.length - Aff.const(1) - lo, '`%s(%s)` is never applied to an empty slice (start inside the list)' % (op, ast.unparse(e)[:50]), lineno, fx)
+        if e.slice.upper is not None:
+            self.require(hi, 'slice stop of `%s` is not negative (a negative stop counts from the end of the list: the window becomes almost the whole list)' % ast.unparse(e)[:50], lineno, fx)
+        if default is None:
+            self.require(hi - lo - Aff.const(1), '`%s(%s)` is never applied to an empty slice (upper > lower)' % (op, ast.unparse(e)[:50]), lineno, fx)
+            self.require(s.length - Aff.const(1) - lo, '`%s(%s)` is never applied to an empty slice (start inside the list)' % (op, ast.unparse(e)[:50]), lineno, fx)
+        else:
+            allf = self.facts + list(fx)
+            for cond in (hi - lo - Aff.const(1), s.length - Aff.const(1) - lo):
+                if entails(allf, cond):
+                    continue
+                if entails(allf, -cond - Aff.const(1)):
+                    return default
+                raise NeedSplit(cond)
         v = self.newvar('i')
         body = s.elem(Aff.sym(v))
         # beyond the end the slice is clipped: equivalent to a neutral high fill
@@ -512,6 +536,16 @@ class Interp(object):
     # ------------------------------------------------------------------ loops with accumulators
     def run_loop(self, st, env):
         """for v in range(...): straight-line body of assignments / nested loops.  Updates env with the values after the loop."""
+        # for x in islice(S, a, b): ...   ==   for w in range(a, b): x = S[w]; ...
+        it0 = st.iter
+        if isinstance(it0, ast.Call) and ((isinstance(it0.func, ast.Name) and it0.func.id == 'islice') or (isinstance(it0.func, ast.Attribute) and it0.func.attr == 'islice')) \
+                and len(it0.args) == 3 and isinstance(st.target, ast.Name):
+            wname = '__islice_%s' % self.newvar('i')
+            first = ast.Assign(targets=[ast.Name(id=st.target.id, ctx=ast.Store())],
+                               value=ast.Subscript(value=it0.args[0], slice=ast.Name(id=wname, ctx=ast.Load()), ctx=ast.Load()))
+            st = ast.For(target=ast.Name(id=wname, ctx=ast.Store()), iter=ast.Call(func=ast.Name(id='range', ctx=ast.Load()), args=[it0.args[1], it0.args[2]], keywords=[]),
+                         body=[first] + list(st.body), orelse=[])
+            ast.fix_missing_locations(st)
         rng = self.range_of(st.iter, env)
         if rng is None or not isinstance(st.target, ast.Name):
             raise Unknown('loop %s' % ast.unparse(st.iter)[:40])
@@ -719,6 +753,21 @@ def simplify_under(term, facts):
             v = Aff.sym(var)
             if entails(fx, lo - hi - Aff.const(1)):
                 return NEUTRAL[op]      # empty range
+            # a reduction over a leaf driven directly by the variable, whose out-of-trace fill is the neutral element of the reduction:
+            # the part of the range that lies outside the trace contributes nothing, so the range is clipped to the trace
+            if body[0] == 'leaf' and body[2].coeff(var) == 1:
+                rest = body[2] - v                       # index = t + var + rest
+                low, high = body[3], body[4]
+                first_in = -t - rest                      # smallest var with index >= 0
+                last_in = n - Aff.const(1) - t - rest     # largest var with index <= n-1
+                if low == NEUTRAL[op] and entails(fx, first_in - lo):
+                    lo = first_in
+                    if entails(fx, lo - hi - Aff.const(1)):
+                        return NEUTRAL[op]
+                if high == NEUTRAL[op] and entails(fx, hi - last_in):
+                    hi = last_in
+                    if entails(fx, lo - hi - Aff.const(1)):
+                        return NEUTRAL[op]
             b2 = go(body, fx + [v - lo, hi - v])
             if b2 == NEUTRAL[op]:
                 return b2
@@ -754,17 +803,72 @@ def _merge_adjacent(op, args, fx):
 
 def with_splits(run, facts=(), depth=0):
     """run(facts) -> result; a NeedSplit(c) repeats the analysis under c >= 0 and under c <= -1.  -> [(facts, result)]"""
+    a, b, n, t = Aff.sym('a'), Aff.sym('b'), Aff.sym('n'), Aff.sym('t')
+    base = [a, b - a, n - Aff.const(1), t, n - Aff.const(1) - t]
+    if _infeasible(base + list(facts)):
+        return []
     try:
         return [(list(facts), run(list(facts)))]
     except NeedSplit as e:
-        if depth >= 4:
-            raise Unknown('more than 4 nested case splits (%s)' % e)
+        if depth >= 9:
+            raise Unknown('more than 9 nested case splits (%s)' % e)
         c = e.cond
         return with_splits(run, list(facts) + [c], depth + 1) + with_splits(run, list(facts) + [-c - Aff.const(1)], depth + 1)
 
 
+def desugar(func_node):
+    """source-level rewrites that leave the meaning unchanged and bring a handler into the interpreted idioms:
+         W = S[lo:hi] ... min(W)                 ->  min(S[lo:hi])           (a slice bound to a name that is only reduced / tested)
+         min(X) if X else D   /   D if not X else min(X)   ->  min(X, default=D)"""
+    import copy
+    fn = copy.deepcopy(func_node)
+
+    def is_slice(e):
+        return isinstance(e, ast.Subscript) and isinstance(e.slice, ast.Slice)
+
+    def inline_block(stmts):
+        out = []
+        temps = {}
+        for st in stmts:
+            # substitute known temps
+            class Sub(ast.NodeTransformer):
+                def visit_Name(self, n):
+                    if isinstance(n.ctx, ast.Load) and n.id in temps:
+                        return copy.deepcopy(temps[n.id])
+                    return n
+            if isinstance(st, ast.Assign) and len(st.targets) == 1 and isinstance(st.targets[0], ast.Name) and is_slice(st.value):
+                temps[st.targets[0].id] = Sub().visit(copy.deepcopy(st.value))
+                continue
+            if isinstance(st, ast.Assign) and len(st.targets) == 1 and isinstance(st.targets[0], ast.Name) and st.targets[0].id in temps:
+                del temps[st.targets[0].id]
+            st = Sub().visit(st)
+            for f_ in ('body', 'orelse'):
+                b = getattr(st, f_, None)
+                if isinstance(b, list) and b and isinstance(b[0], ast.stmt):
+                    setattr(st, f_, inline_block(b))
+            out.append(st)
+        return out
+    fn.body = inline_block(fn.body)
+
+    class Dflt(ast.NodeTransformer):
+        def visit_IfExp(self, n):
+            self.generic_visit(n)
+            test, a, b = n.test, n.body, n.orelse
+            neg = False
+            if isinstance(test, ast.UnaryOp) and isinstance(test.op, ast.Not):
+                test, a, b, neg = test.operand, b, a, True
+            if isinstance(a, ast.Call) and isinstance(a.func, ast.Name) and a.func.id in ('min', 'max') and len(a.args) == 1 and not a.keywords \
+                    and ast.dump(a.args[0]) == ast.dump(test):
+                return ast.copy_location(ast.Call(func=a.func, args=a.args, keywords=[ast.keyword(arg='default', value=b)]), n)
+            return n
+    fn = Dflt().visit(fn)
+    ast.fix_missing_locations(fn)
+    return fn
+
+
 def summarize_offline(func_node, kind, facts=()):
     """discrete-time offline visitTimedX -> ([(case facts, canonical term)], Interp).  An `if` on lengths/bounds splits the analysis."""
+    func_node = desugar(func_node)
     body = [s for s in func_node.body if not (isinstance(s, ast.Expr) and isinstance(s.value, ast.Constant))]
     it = Interp(facts)
     cases = []
